@@ -859,4 +859,404 @@ example : ¬ fnumberAst.Accepts ".5".toList := by decide
 example : ¬ fnumberAst.Accepts "1.5e".toList := by decide
 example : ¬ fnumberAst.Accepts "1..5".toList := by decide
 
+/-! ## sci_real  (`[+-]?(?:\d+(?:[eE][+-]?\d+)|(?:\d+\.\d*|\.\d+)(?:[eE][+-]?\d+)?)`) -/
+
+theorem plus_digit_head (x : List Char) : ((plus digit).ends x).head? =
+    if 1 ≤ (x.takeWhile dset.has).length then some (x.dropWhile dset.has) else none := by
+  unfold plus digit; rw [ends_rep_set, repSet_none_head]
+
+theorem star_digit_head (x : List Char) : ((star digit).ends x).head? = some (x.dropWhile dset.has) := by
+  unfold star digit; rw [ends_rep_set, repSet_none_head]; simp
+
+def StopsDigits (w : List Char) : Prop := w = [] ∨ ∃ c t, w = c :: t ∧ dset.has c = false
+
+theorem ureal_ends_nil : urealPart.ends [] = [] := by
+  unfold urealPart; simp [Re.ends, plus, digit, lit, repEnds]
+
+/-- the preferred match of the unsigned real part is a real number, and what is left does not go on with a digit -/
+theorem ureal_first_sound (x w : List Char) (h : (urealPart.ends x).head? = some w) :
+    ∃ u, x = u ++ w ∧ IsUReal u ∧ StopsDigits w := by
+  cases x with
+  | nil => rw [ureal_ends_nil] at h; simp at h
+  | cons c t =>
+    rw [ureal_ends_cons] at h
+    by_cases hdot : c = '.'
+    · subst hdot
+      rw [if_pos rfl, plus_digit_head] at h
+      split at h
+      · rename_i hrun
+        simp only [Option.some.injEq] at h; subst h
+        have hz := List.takeWhile_append_dropWhile (p := dset.has) (l := t)
+        refine ⟨'.' :: t.takeWhile dset.has, by simp [hz], ⟨[], t.takeWhile dset.has, rfl, by simp,
+          fun c hc => (has_digit c).1 (mem_takeWhile_sat _ _ c hc), Or.inr ?_⟩, dropWhile_head_not _ _⟩
+        intro h0; rw [h0] at hrun; simp at hrun
+      · simp at h
+    · rw [if_neg hdot] at h
+      by_cases hd : IsDigit c
+      · rw [if_pos hd] at h
+        have hx := List.takeWhile_append_dropWhile (p := dset.has) (l := c :: t)
+        cases hy : (c :: t).dropWhile dset.has with
+        | nil => rw [hy] at h; simp [Re.ends, lit] at h
+        | cons y0 z =>
+          rw [hy] at h hx
+          unfold lit at h
+          rw [ends_seq_set] at h
+          simp only [has_lit] at h
+          by_cases hy0 : y0 = '.'
+          · subst hy0
+            rw [if_pos rfl, star_digit_head] at h
+            simp only [Option.some.injEq] at h; subst h
+            have hz := List.takeWhile_append_dropWhile (p := dset.has) (l := z)
+            refine ⟨(c :: t).takeWhile dset.has ++ '.' :: z.takeWhile dset.has, ?_,
+              ⟨(c :: t).takeWhile dset.has, z.takeWhile dset.has, rfl,
+                fun c hc => (has_digit c).1 (mem_takeWhile_sat _ _ c hc),
+                fun c hc => (has_digit c).1 (mem_takeWhile_sat _ _ c hc), Or.inl ?_⟩, dropWhile_head_not _ _⟩
+            · rw [List.append_assoc, List.cons_append, hz]; exact hx.symm
+            · have : dset.has c = true := (has_digit c).2 hd
+              simp [List.takeWhile_cons, this]
+          · rw [if_neg hy0] at h; simp at h
+      · rw [if_neg hd] at h; simp at h
+
+theorem ureal_first_complete (u ex : List Char) (hu : IsUReal u) (hex : StopsDigits ex) :
+    (urealPart.ends (u ++ ex)).head? = some ex := by
+  obtain ⟨a, b, rfl, ha, hb, hne⟩ := hu
+  have hdot : dset.has '.' = false := by decide
+  cases a with
+  | nil =>
+    simp only [List.nil_append, List.cons_append]
+    rw [ureal_ends_cons, if_pos rfl, plus_digit_head]
+    obtain ⟨hd, ht⟩ := dropWhile_append_stop dset.has b ex (dset_all hb) hex
+    have hbne : b ≠ [] := by rcases hne with h | h; exact absurd rfl h; exact h
+    rw [ht, hd, if_pos (by cases b <;> simp_all)]
+  | cons a0 a' =>
+    have ha0 : IsDigit a0 := ha a0 (by simp)
+    simp only [List.cons_append, List.append_assoc]
+    rw [ureal_ends_cons, if_neg (digit_ne_dot ha0), if_pos ha0]
+    have hd := (dropWhile_append_stop dset.has (a0 :: a') ('.' :: (b ++ ex)) (dset_all ha)
+      (Or.inr ⟨'.', b ++ ex, rfl, hdot⟩)).1
+    simp only [List.cons_append] at hd
+    rw [hd]
+    unfold lit
+    rw [ends_seq_set]
+    simp only [has_lit, if_true]
+    rw [star_digit_head, (dropWhile_append_stop dset.has b ex (dset_all hb) hex).1]
+
+def sciBody : Re := alt (seq (plus digit) expoPart) (seq urealPart (opt expoPart))
+
+theorem expo_noDigit : ∀ c t, dset.has c = true → expoPart.ends (c :: t) = [] := by
+  intro c t h
+  unfold expoPart cls
+  rw [ends_seq_set]
+  have : ¬ eEs.has c = true := by
+    rw [has_eE]; have hd := (has_digit c).1 h
+    rintro (rfl | rfl) <;> (revert hd; unfold IsDigit; decide)
+  simp [this]
+
+theorem sci_A1_ends (x : List Char) : (seq (plus digit) expoPart).ends x =
+    if 1 ≤ (x.takeWhile dset.has).length then expoPart.ends (x.dropWhile dset.has) else [] := by
+  unfold plus digit
+  exact ends_seq_rep_set_noStart dset _ 1 _ expo_noDigit
+
+theorem sci_A2_head (x : List Char) : ((seq urealPart (opt expoPart)).ends x).head? =
+    (urealPart.ends x).head?.bind (fun w => ((opt expoPart).ends w).head?) :=
+  head_seq_total _ _ (total_opt_progress _ expo_progress) x
+
+theorem expo_ends_notE (y : List Char) (h : y = [] ∨ ∃ c t, y = c :: t ∧ eEs.has c = false) :
+    expoPart.ends y = [] := by
+  unfold expoPart cls
+  rw [ends_seq_set]
+  rcases h with rfl | ⟨c, t, rfl, hc⟩
+  · rfl
+  · simp [hc]
+
+/-- documented syntax of the unsigned part: digits + exponent, or a real number with an optional exponent -/
+def IsUSci (x : List Char) : Prop :=
+  (∃ ds ex, x = ds ++ ex ∧ ds ≠ [] ∧ (∀ c ∈ ds, IsDigit c) ∧ IsExpo ex) ∨
+  (∃ u ex, x = u ++ ex ∧ IsUReal u ∧ (ex = [] ∨ IsExpo ex))
+
+/-- documented syntax: optional sign, then `digits e±digits`, or `digits.digits*` / `.digits` with optional exponent -/
+def IsSciReal (s : List Char) : Prop :=
+  ∃ sg x, s = sg ++ x ∧ (sg = [] ∨ ∃ c, IsSign c ∧ sg = [c]) ∧ IsUSci x
+
+theorem sci_body_language (x : List Char) : sciBody.Accepts x ↔ IsUSci x := by
+  unfold Re.Accepts sciBody
+  show ((seq (plus digit) expoPart).ends x ++ (seq urealPart (opt expoPart)).ends x).head? = some [] ↔ _
+  rw [List.head?_append, sci_A1_ends, sci_A2_head]
+  constructor
+  · intro h
+    by_cases hrun : 1 ≤ (x.takeWhile dset.has).length
+    · rw [if_pos hrun] at h
+      cases h1 : (expoPart.ends (x.dropWhile dset.has)).head? with
+      | some e =>
+        rw [h1] at h
+        simp only [Option.some_or, Option.some.injEq] at h
+        subst h
+        left
+        refine ⟨x.takeWhile dset.has, x.dropWhile dset.has, (List.takeWhile_append_dropWhile).symm, ?_,
+          fun c hc => (has_digit c).1 (mem_takeWhile_sat _ _ c hc), (expo_accepts _).1 h1⟩
+        intro h0; rw [h0] at hrun; simp at hrun
+      | none =>
+        rw [h1] at h
+        simp only [Option.none_or] at h
+        rw [Option.bind_eq_some_iff] at h
+        obtain ⟨w, hw, hw2⟩ := h
+        obtain ⟨u, rfl, hu, _⟩ := ureal_first_sound x w hw
+        right
+        refine ⟨u, w, rfl, hu, ?_⟩
+        rcases (opt_expo_head w).1 hw2 with h' | h'
+        · right; exact (expo_accepts w).1 h'
+        · left; exact h'
+    · rw [if_neg hrun] at h
+      simp only [List.head?_nil, Option.none_or] at h
+      rw [Option.bind_eq_some_iff] at h
+      obtain ⟨w, hw, hw2⟩ := h
+      obtain ⟨u, rfl, hu, _⟩ := ureal_first_sound x w hw
+      right
+      refine ⟨u, w, rfl, hu, ?_⟩
+      rcases (opt_expo_head w).1 hw2 with h' | h'
+      · right; exact (expo_accepts w).1 h'
+      · left; exact h'
+  · rintro (⟨ds, ex, rfl, hne, hds, hex⟩ | ⟨u, ex, rfl, hu, hex⟩)
+    · obtain ⟨hd, ht⟩ := dropWhile_append_stop dset.has ds ex (dset_all hds) (expo_stop (Or.inr hex))
+      rw [ht, hd, if_pos (by cases ds <;> simp_all)]
+      have := (expo_accepts ex).2 hex
+      unfold Re.Accepts at this
+      rw [this]; rfl
+    · have hstop : StopsDigits ex := expo_stop hex
+      have h2 : (urealPart.ends (u ++ ex)).head? = some ex := ureal_first_complete u ex hu hstop
+      have hoe : ((opt expoPart).ends ex).head? = some [] := by
+        rw [opt_expo_head]
+        rcases hex with h | h
+        · right; exact h
+        · left; exact (expo_accepts ex).2 h
+      -- the first alternative finds nothing: after the leading digits (if any) comes the '.'
+      have h1 : (if 1 ≤ ((u ++ ex).takeWhile dset.has).length then
+          expoPart.ends ((u ++ ex).dropWhile dset.has) else []) = [] := by
+        obtain ⟨a, b, rfl, ha, hb, _⟩ := hu
+        have hdot : dset.has '.' = false := by decide
+        have hd := (dropWhile_append_stop dset.has a ('.' :: (b ++ ex)) (dset_all ha)
+          (Or.inr ⟨'.', b ++ ex, rfl, hdot⟩)).1
+        have : a ++ '.' :: b ++ ex = a ++ '.' :: (b ++ ex) := by simp
+        rw [this, hd]
+        split
+        · exact expo_ends_notE _ (Or.inr ⟨'.', _, rfl, by decide⟩)
+        · rfl
+      rw [h1, h2]
+      simp [hoe]
+
+theorem sci_noSign : ∀ c t, IsSign c → sciBody.ends (c :: t) = [] := by
+  intro c t h
+  unfold sciBody
+  show (seq (plus digit) expoPart).ends (c :: t) ++ (seq urealPart (opt expoPart)).ends (c :: t) = []
+  have hc : dset.has c = false := by
+    cases hh : dset.has c with
+    | false => rfl
+    | true => exact absurd ((has_digit c).1 hh) (sign_not_digit h)
+  rw [sci_A1_ends]
+  have : (seq urealPart (opt expoPart)).ends (c :: t) = [] := by
+    simp only [Re.ends]
+    have := ureal_noSign c t h
+    rw [this]; rfl
+  rw [this]
+  simp [List.takeWhile_cons, hc]
+
+theorem sci_real_language (s : List Char) : sciRealAst.Accepts s ↔ IsSciReal s := by
+  have : sciRealAst = seq signOpt sciBody := rfl
+  rw [this]
+  unfold IsSciReal
+  rw [accepts_signOpt _ sci_noSign]
+  simp only [sci_body_language]
+
+example : sciRealAst.Accepts "-1e5".toList := by decide
+example : sciRealAst.Accepts "1.5E-3".toList := by decide
+example : sciRealAst.Accepts ".5".toList := by decide
+example : sciRealAst.Accepts "1.e5".toList := by decide
+example : ¬ sciRealAst.Accepts "15".toList := by decide
+example : ¬ sciRealAst.Accepts "1e".toList := by decide
+example : ¬ sciRealAst.Accepts "1.5e+".toList := by decide
+example : ¬ sciRealAst.Accepts "1e5.5".toList := by decide
+
+/-! ## ipv4_address — soundness half only (`_partial`)
+
+Full statement (NOT proved): `ipv4Ast.Accepts s ↔ IsIpv4 s`.  Proved here: `→` (everything the pattern accepts is
+four octets of the pattern's exact policy separated by dots).  Missing: `←`, i.e. that for every such string the
+*preferred* match is the full one (needs the greedy-first argument through the backtracking octet alternatives). -/
+
+theorem mem_set_ends (cs : CSet) (s e : List Char) :
+    e ∈ (Re.set cs).ends s ↔ ∃ c, s = c :: e ∧ cs.has c = true := by
+  rw [det_set cs s, ← expect_some]
+  cases expect cs.has s <;> simp [eq_comm]
+
+theorem mem_seq_ends (a b : Re) (s e : List Char) :
+    e ∈ (seq a b).ends s ↔ ∃ e', e' ∈ a.ends s ∧ e ∈ b.ends e' := by
+  simp [Re.ends, List.mem_flatMap]
+
+theorem mem_alt_ends (a b : Re) (s e : List Char) : e ∈ (alt a b).ends s ↔ e ∈ a.ends s ∨ e ∈ b.ends s := by
+  simp [Re.ends]
+
+theorem mem_opt_set_ends (cs : CSet) (s e : List Char) :
+    e ∈ (opt (.set cs)).ends s ↔ e = s ∨ ∃ c, s = c :: e ∧ cs.has c = true := by
+  rw [ends_opt_set]
+  cases s with
+  | nil => simp
+  | cons c t =>
+    by_cases hc : cs.has c = true
+    · simp only [hc, if_true, List.mem_cons, List.not_mem_nil, or_false]
+      constructor
+      · rintro (rfl | rfl)
+        · exact Or.inr ⟨c, rfl, hc⟩
+        · exact Or.inl rfl
+      · rintro (rfl | ⟨c', h, _⟩)
+        · exact Or.inr rfl
+        · exact Or.inl (List.cons.inj h).2.symm
+    · simp only
+      rw [if_neg hc]
+      simp only [List.mem_cons, List.not_mem_nil, or_false]
+      constructor
+      · intro h; exact Or.inl h
+      · rintro (h | ⟨c', h, hc'⟩)
+        · exact h
+        · exact absurd ((List.cons.inj h).1 ▸ hc') hc
+
+theorem repSet_zero_zero (C : Char → Bool) (t : List Char) : repSet C 0 (some 0) t = [t] := by
+  cases t <;> simp [repSet]
+
+theorem mem_between12_ends (cs : CSet) (s e : List Char) (h : e ∈ (between 1 2 (.set cs)).ends s) :
+    (∃ c, s = c :: e ∧ cs.has c = true) ∨ (∃ c1 c2, s = c1 :: c2 :: e ∧ cs.has c1 = true ∧ cs.has c2 = true) := by
+  unfold between at h
+  rw [ends_rep_set] at h
+  cases s with
+  | nil => simp [repSet] at h
+  | cons c1 t =>
+    by_cases h1 : cs.has c1 = true
+    · cases t with
+      | nil => simp [repSet, h1] at h; subst h; exact Or.inl ⟨c1, rfl, h1⟩
+      | cons c2 t2 =>
+        by_cases h2 : cs.has c2 = true
+        · simp [repSet, h1, h2, repSet_zero_zero] at h
+          rcases h with rfl | rfl
+          · exact Or.inr ⟨c1, c2, rfl, h1, h2⟩
+          · exact Or.inl ⟨c1, rfl, h1⟩
+        · simp [repSet, h1, h2] at h; subst h; exact Or.inl ⟨c1, rfl, h1⟩
+    · simp [repSet, h1] at h
+
+/-- the pattern's exact octet policy: one or two digits (leading zeros allowed), or three digits `1dd`,
+    `2dd` with `d ≤ 4` in the middle, or `25d` with `d ≤ 5` -/
+def IsOctet (w : List Char) : Prop :=
+  (∀ c ∈ w, IsDigit c) ∧
+    (w.length = 1 ∨ w.length = 2 ∨ (∃ d1 d2, w = ['1', d1, d2]) ∨
+      (∃ d1 d2, w = ['2', d1, d2] ∧ (d1 ≤ '4' ∨ (d1 = '5' ∧ d2 ≤ '5'))))
+
+theorem has_range (lo hi c : Char) : (CSet.mk false [.r lo hi] false).has c = true ↔ (lo ≤ c ∧ c ≤ hi) := by
+  simp [CSet.has, Item.has]
+
+theorem mem_octet (s e : List Char) (h : e ∈ octetAst.ends s) : ∃ w, s = w ++ e ∧ IsOctet w := by
+  unfold octetAst at h
+  simp only [seqs] at h
+  rw [mem_alt_ends, mem_alt_ends] at h
+  have d2 : IsDigit '2' := by unfold IsDigit; decide
+  have d5 : IsDigit '5' := by unfold IsDigit; decide
+  have d1 : IsDigit '1' := by unfold IsDigit; decide
+  rcases h with h | h | h
+  · -- 25[0-5]
+    unfold lit cls at h
+    rw [mem_seq_ends] at h; obtain ⟨e1, h1, h⟩ := h
+    rw [mem_seq_ends] at h; obtain ⟨e2, h2, h3⟩ := h
+    obtain ⟨c1, rfl, hc1⟩ := (mem_set_ends _ _ _).1 h1
+    obtain ⟨c2, rfl, hc2⟩ := (mem_set_ends _ _ _).1 h2
+    obtain ⟨c3, rfl, hc3⟩ := (mem_set_ends _ _ _).1 h3
+    rw [has_lit] at hc1 hc2; subst hc1; subst hc2
+    rw [has_range] at hc3
+    refine ⟨['2', '5', c3], rfl, ?_, Or.inr (Or.inr (Or.inr ⟨'5', c3, rfl, Or.inr ⟨rfl, hc3.2⟩⟩))⟩
+    intro c hc; simp at hc
+    rcases hc with rfl | rfl | rfl
+    · exact d2
+    · exact d5
+    · exact ⟨hc3.1, Char.le_trans hc3.2 (by decide)⟩
+  · -- 2[0-4][0-9]
+    unfold lit cls at h
+    rw [mem_seq_ends] at h; obtain ⟨e1, h1, h⟩ := h
+    rw [mem_seq_ends] at h; obtain ⟨e2, h2, h3⟩ := h
+    obtain ⟨c1, rfl, hc1⟩ := (mem_set_ends _ _ _).1 h1
+    obtain ⟨c2, rfl, hc2⟩ := (mem_set_ends _ _ _).1 h2
+    obtain ⟨c3, rfl, hc3⟩ := (mem_set_ends _ _ _).1 h3
+    rw [has_lit] at hc1; subst hc1
+    rw [has_range] at hc2 hc3
+    refine ⟨['2', c2, c3], rfl, ?_, Or.inr (Or.inr (Or.inr ⟨c2, c3, rfl, Or.inl hc2.2⟩))⟩
+    intro c hc; simp at hc
+    rcases hc with rfl | rfl | rfl
+    · exact d2
+    · exact ⟨hc2.1, Char.le_trans hc2.2 (by decide)⟩
+    · exact hc3
+  · -- 1?[0-9]{1,2}
+    unfold lit cls at h
+    rw [mem_seq_ends] at h; obtain ⟨e1, h1, h⟩ := h
+    rw [mem_opt_set_ends] at h1
+    have hD := mem_between12_ends _ _ _ h
+    simp only [has_range] at hD
+    rcases h1 with rfl | ⟨c0, rfl, hc0⟩
+    · rcases hD with ⟨c, rfl, hc⟩ | ⟨c1, c2, rfl, hc1, hc2⟩
+      · exact ⟨[c], rfl, by intro x hx; simp at hx; subst hx; exact hc, Or.inl rfl⟩
+      · exact ⟨[c1, c2], rfl, by intro x hx; simp at hx; rcases hx with rfl | rfl; exact hc1; exact hc2,
+          Or.inr (Or.inl rfl)⟩
+    · rw [has_lit] at hc0; subst hc0
+      rcases hD with ⟨c, rfl, hc⟩ | ⟨c1, c2, rfl, hc1, hc2⟩
+      · exact ⟨['1', c], rfl, by intro x hx; simp at hx; rcases hx with rfl | rfl; exact d1; exact hc,
+          Or.inr (Or.inl rfl)⟩
+      · exact ⟨['1', c1, c2], rfl,
+          by intro x hx; simp at hx; rcases hx with rfl | rfl | rfl; exact d1; exact hc1; exact hc2,
+          Or.inr (Or.inr (Or.inl ⟨c1, c2, rfl⟩))⟩
+
+/-- documented syntax with the pattern's leading-zero policy: four octets separated by dots -/
+def IsIpv4 (s : List Char) : Prop :=
+  ∃ o1 o2 o3 o4, s = o1 ++ '.' :: (o2 ++ '.' :: (o3 ++ '.' :: o4)) ∧
+    IsOctet o1 ∧ IsOctet o2 ∧ IsOctet o3 ∧ IsOctet o4
+
+def dotOctet : Re := grp 2 (seq (lit '.') (grp 3 octetAst))
+
+theorem mem_dotOctet (s e : List Char) (h : e ∈ dotOctet.ends s) : ∃ w, s = '.' :: (w ++ e) ∧ IsOctet w := by
+  unfold dotOctet lit at h
+  simp only [Re.ends] at h
+  have h' : e ∈ (seq (.set ⟨false, [.c '.'], false⟩) octetAst).ends s := by simpa [Re.ends] using h
+  rw [mem_seq_ends] at h'
+  obtain ⟨e1, h1, h2⟩ := h'
+  obtain ⟨c, rfl, hc⟩ := (mem_set_ends _ _ _).1 h1
+  rw [has_lit] at hc; subst hc
+  obtain ⟨w, rfl, hw⟩ := mem_octet _ _ h2
+  exact ⟨w, rfl, hw⟩
+
+theorem dotOctet_progress (s e : List Char) (h : e ∈ dotOctet.ends s) : e.length < s.length := by
+  obtain ⟨w, rfl, _⟩ := mem_dotOctet s e h
+  simp; omega
+
+theorem ipv4_language_partial (s : List Char) (h : ipv4Ast.Accepts s) : IsIpv4 s := by
+  unfold Re.Accepts at h
+  have hmem : [] ∈ ipv4Ast.ends s := by
+    cases hl : ipv4Ast.ends s with
+    | nil => rw [hl] at h; simp at h
+    | cons a l => rw [hl] at h; simp at h; subst h; simp
+  have hdef : ipv4Ast = seq (grp 1 octetAst) (.rep dotOctet 3 (some 3) true) := rfl
+  rw [hdef, mem_seq_ends] at hmem
+  obtain ⟨e1, h1, h2⟩ := hmem
+  have h1' : e1 ∈ octetAst.ends s := by simpa [Re.ends] using h1
+  obtain ⟨o1, rfl, ho1⟩ := mem_octet _ _ h1'
+  rw [ends_rep_exact_succ dotOctet true 2 e1 (dotOctet_progress e1), List.mem_flatMap] at h2
+  obtain ⟨e2, h21, h2⟩ := h2
+  obtain ⟨o2, rfl, ho2⟩ := mem_dotOctet _ _ h21
+  rw [ends_rep_exact_succ dotOctet true 1 e2 (dotOctet_progress e2), List.mem_flatMap] at h2
+  obtain ⟨e3, h31, h2⟩ := h2
+  obtain ⟨o3, rfl, ho3⟩ := mem_dotOctet _ _ h31
+  rw [ends_rep_exact_succ dotOctet true 0 e3 (dotOctet_progress e3), List.mem_flatMap] at h2
+  obtain ⟨e4, h41, h2⟩ := h2
+  obtain ⟨o4, rfl, ho4⟩ := mem_dotOctet _ _ h41
+  rw [ends_rep_exact_zero] at h2
+  simp at h2; subst h2
+  exact ⟨o1, o2, o3, o4, by simp, ho1, ho2, ho3, ho4⟩
+
+example : ipv4Ast.Accepts "192.168.0.255".toList := by decide
+example : IsIpv4 "192.168.0.255".toList := ipv4_language_partial _ (by decide)
+example : ¬ ipv4Ast.Accepts "256.1.1.1".toList := by decide
+example : ¬ ipv4Ast.Accepts "1.1.1.1000".toList := by decide
+example : ipv4Ast.Accepts "01.00.9.1".toList := by decide
+
 end PP.C18
